@@ -172,6 +172,13 @@ def run (lines : Array String) : Driver.Report := Id.run do
           r := r.addMonitor "ve_empty_ok" n line "an empty extended commit (matching round) was rejected"
         if impl = "panic" then r := r.addMonitor "ve_accept_sound" n line "validate_proposal panicked"
       | _, _, _, _ => r := r.addDisagree n line "bad-op"
+    | ["quorum", "pricelen", len] =>
+      match len.toNat? with
+      | some k =>
+        let m := s!"verify={if verifyAcceptsPriceLen k then "accept" else "reject"} finalize={if priceDecodes k then "ok" else "err"}"
+        r := r.check n line impl m
+        r := r.bump (if verifyAcceptsPriceLen k && !priceDecodes k then "pricelen_accepted_not_decodable" else "pricelen_consistent")
+      | none => r := r.addDisagree n line "bad-op"
     | _ => r := r.addDisagree n line "bad-area"
   return r
 
